@@ -218,7 +218,7 @@ func importsNeeded(info *types.Info, helper *ast.FuncDecl, caller *ast.File, pk 
 }
 
 // Normalize returns an overlay in which new helpers are inlined, and notes describing what was done.
-func Normalize(dir string, overlay map[string][]byte, goarch string, baseline map[string]bool) (map[string][]byte, []string) {
+func Normalize(dir string, overlay map[string][]byte, goarch string, baseline map[string]bool, base *Baseline) (map[string][]byte, []string) {
 	if len(baseline) == 0 || !anyNewDecl(dir, overlay, baseline) {
 		return overlay, nil
 	}
@@ -239,6 +239,21 @@ func Normalize(dir string, overlay map[string][]byte, goarch string, baseline ma
 		var fset *token.FileSet
 		cands := map[*types.Func]*inlineCand{}
 		goCands := map[*types.Func]*inlineCand{}
+		// baseline functions that are still there under another signature are not helpers to be inlined
+		var gone map[string]map[string]bool
+		if base != nil {
+			present := map[string]bool{}
+			packages.Visit(pkgs, nil, func(pk *packages.Package) {
+				for _, f := range pk.Syntax {
+					for _, d := range f.Decls {
+						if fd, ok := d.(*ast.FuncDecl); ok {
+							present[FuncDeclKey(pk.PkgPath, fd)] = true
+						}
+					}
+				}
+			})
+			gone = GoneBodies(base, present)
+		}
 		packages.Visit(pkgs, nil, func(pk *packages.Package) {
 			if !IsProd(pk.PkgPath) || pk.TypesInfo == nil {
 				return
@@ -247,6 +262,12 @@ func Normalize(dir string, overlay map[string][]byte, goarch string, baseline ma
 			for _, f := range pk.Syntax {
 				for _, d := range f.Decls {
 					fd, ok := d.(*ast.FuncDecl)
+					if ok && fd.Body != nil && !baseline[FuncDeclKey(pk.PkgPath, fd)] && (gone[pk.PkgPath][BodyHashOf(pk.Fset, fd)] || gone[pk.PkgPath]["alpha:"+AlphaHashOf(pk.TypesInfo, pk.Types, fd)]) {
+						if round == 0 {
+							notes = append(notes, "kept "+FuncDeclKey(pk.PkgPath, fd)+": a baseline function with another signature")
+						}
+						continue
+					}
 					if ok && !baseline[FuncDeclKey(pk.PkgPath, fd)] && fd.Body != nil && fd.Type.TypeParams == nil && fd.Name.Name != "init" && fd.Name.Name != "main" {
 						variadic := false
 						for _, fl := range fd.Type.Params.List {
